@@ -124,6 +124,15 @@ _add("Falcun", "Falcun", {}, ["pwc", "gnb"])
 for m in ("random", "diversity", "representativity"):
     _add(f"RegressionTreeBasedAL:{m}", "RegressionTreeBasedAL", {"method": m}, ["tree"], task="reg")
 
+# strategies that need a mapping from candidates to X (feature-row candidates are refused: MappingError)
+for _k, _e in _E.items():
+    if _e["cls"] in ("Quire", "TypiClust", "ValueOfInformationEER", "DiscriminativeAL", "ProbCover", "CostEmbeddingAL"):
+        _e["flags"]["rows"] = False
+    if _e["cls"] in ("MonteCarloEER", "ValueOfInformationEER"):
+        # fit_clf=False with a caller-fitted classifier is refused by design (IndexClassifierWrapper cannot
+        # emulate partial_fit on a classifier of unknown provenance)
+        _e["flags"]["noprefit"] = True
+
 ENTRIES = _E
 
 
